@@ -104,6 +104,46 @@ def _chars(e):
 REGIONS = {}
 
 
+def e1_cases(tier):
+    """symbolic ARGUMENT characters and a symbolic CANDIDATE code point: membership of c in the emitted class (read by the real parser)
+    equals membership in the requested set, for every argument character and every candidate"""
+    from vlib.symx import engine
+    cs = []
+    C = [("c", "int")]
+    rng = "0 <= c and c <= 1114111"
+    one = [("A0", "str")] + C
+    for ctor, neg in (("AnyFrom", False), ("AnyButFrom", True)):
+        want = "(c == ord(A0))"
+        body = "p = %s(A0)\nreturn class_member(str(p), c) == (%s%s)" % (ctor, "not " if neg else "", want)
+        cs.append(engine.raw_case(body, one, ["len(A0) == 1 and " + rng], "%s(a): candidate c matched iff %sc == a (a, c symbolic)" % (ctor, "not " if neg else "")))
+        for other in ("b", "[", "-", "\\\\", "]", "^"):
+            want = "(c == ord(A0) or c == %d)" % ord(other[-1] if other != "\\\\" else "\\")
+            lit = "'%s'" % other
+            for order in ("%s(A0, %s)" % (ctor, lit), "%s(%s, A0)" % (ctor, lit)):
+                if tier == "quick" and (neg or order.endswith("A0)")) and other not in ("[",):
+                    continue
+                body = "p = %s\nreturn class_member(str(p), c) == (%s%s)" % (order, "not " if neg else "", want)
+                cs.append(engine.raw_case(body, one, ["len(A0) == 1 and " + rng], "%s: candidate c matched iff %sc in {a, %s} (a, c symbolic)" % (order, "not " if neg else "", other)))
+    for ctor, neg in (("AnyBetween", False), ("AnyButBetween", True)):
+        for fixed, first in (("m", False), ("m", True), ("[", False), ("-", True)):
+            call = "%s('%s', A0)" % (ctor, fixed) if first else "%s(A0, '%s')" % (ctor, fixed)
+            lo, hi = ("%d" % ord(fixed), "ord(A0)") if first else ("ord(A0)", "%d" % ord(fixed))
+            if tier == "quick" and (neg or fixed in ("-",)):
+                continue
+            body = ("try:\n    p = %s\nexcept InvalidRangeException:\n    return %s >= %s\n"
+                    "if %s >= %s:\n    return False\n"
+                    "return class_member(str(p), c) == (%s(%s <= c and c <= %s))") % (call, lo, hi, lo, hi, "not " if neg else "", lo, hi)
+            cs.append(engine.raw_case(body, one, ["len(A0) == 1 and " + rng], "%s: range membership / InvalidRangeException iff start >= end (a, c symbolic)" % call))
+    if tier == "thorough":
+        two = [("A0", "str"), ("A1", "str")] + C
+        body = "p = AnyFrom(A0, A1)\nreturn class_member(str(p), c) == (c == ord(A0) or c == ord(A1))"
+        cs.append(engine.raw_case(body, two, ["len(A0) == 1 and len(A1) == 1 and " + rng], "AnyFrom(a, b): candidate matched iff c in {a, b} (a, b, c symbolic)"))
+        body = ("try:\n    p = AnyBetween(A0, A1)\nexcept InvalidRangeException:\n    return ord(A0) >= ord(A1)\nif ord(A0) >= ord(A1):\n    return False\n"
+                "return class_member(str(p), c) == (ord(A0) <= c and c <= ord(A1))")
+        cs.append(engine.raw_case(body, two, ["len(A0) == 1 and len(A1) == 1 and " + rng], "AnyBetween(a, b): range membership (a, b, c symbolic)"))
+    return cs
+
+
 def run(tier):
     run = common.Run(PROP, tier)
     run.known.probe()
@@ -120,10 +160,17 @@ def run(tier):
     n = 120
     tasks = [("task_chunk", (ex[i:i + n], seed_list)) for i in range(0, len(ex), n)]
     run.add(common.run_tasks(__name__, tasks))
+    from vlib.symx import engine
+    cases = e1_cases(tier)
+    outs = engine.run_cases(cases, per_condition_timeout=420 if tier == "quick" else 3000)
+    run.add(engine.to_results(cases, outs))
+    run.info = {"crosshair_harnesses": len(cases), "crosshair_paths_explored": sum(r.get("paths", 0) for r in run.results)}
     run.triage(REGIONS)
     run.bounds = {"expressions": "%d constructor calls: all named classes and tokens; AnyFrom/AnyButFrom with 1, 2 (pool squared) and 3 arguments; "
                   "AnyBetween/AnyButBetween over every ordered pair of a %d-character pool; tokens as arguments; invalid arguments" % (len(ex), len(POOL)),
                   "candidate": "every code point 0..0x10FFFF (z3 Int), minus Unicode-only members of \\d \\s \\w",
+                  "E1": "%d CrossHair harnesses: one (thorough: two) SYMBOLIC argument character(s) and a SYMBOLIC candidate code point: membership read from the real "
+                        "parser's tree equals membership in the requested set; InvalidRangeException iff start >= end" % len(cases),
                   "hash_seeds": "PYTHONHASHSEED in %s (real interpreters, enumerated)" % (seed_list if len(seed_list) < 10 else "0..%d" % (len(seed_list) - 1))}
     run.assumptions = ["specified sets written from the documentation (props/clsmodel.py NAMED, TOKENS)",
                        "argument characters come from a boundary pool (the E1 engine quantifies over all characters when present)",
